@@ -172,6 +172,37 @@ def run(prog):
                             "position in the scanned watch list" % (what, NAMES[want], NAMES[d], show(arg)[:70])))
     if n < 18:
         raise CheckerError("WS: only %d watch-list uses classified (expected >= 18)" % n)
+    out += distinct_watches(prog)
+    return out
+
+
+def distinct_watches(prog):
+    """WS-dup  when propagation moves a clause's watch to another literal, that literal is chosen by (or the move is
+    guarded by) a test that the clause does not already watch it: `contains(&clause)` on that literal's own list.
+    Both watches on one literal leave the rest of the clause unwatched; the lists are not undone by pop, so after
+    backtracking the clause can become unit without anybody visiting it."""
+    out = []
+    for fn in prog.lib_fns:
+        if fn.impl_self != UP or fn.name != "decide":
+            continue
+        te = fn.terms
+        k = 0
+        for cs in te.calls:
+            if cs.callee.name != "push" or len(cs.args) != 2 or not wl_row(cs.args[0], fn):
+                continue
+            k += 1
+            row = strip(cs.args[0])
+            tested = any(mir.is_call(x, "contains") for x in mir.subterms(row))
+            for c, v, _, _ in te.facts_at(cs.bb):
+                if any(mir.is_call(x, "contains") for x in mir.subterms(c)):
+                    tested = True
+            out.append(inst("WS", "%s:WS-dup:push#%d" % (fn.npath, k), OK if tested else VIOLATION, fn, cs.line,
+                            "the literal that receives the watch was chosen by a `contains(&clause)` test on its list" if tested else
+                            "the watch is moved to %s without testing that the clause does not already watch that literal: both "
+                            "watches can end up on one literal and the rest of the clause is never visited again"
+                            % show(row)[:70]))
+        if k == 0:
+            out.append(inst("WS", "%s:WS-dup" % fn.npath, UNDECIDED, fn, None, "no watch move found in decide"))
     return out
 
 
